@@ -62,11 +62,14 @@ pub fn gen(seed: u64, tier: Tier, k: u64) -> Value {
     }
     if k % 9 == 4 {
         // force a cluster close on the compressed side between two uses of the same content
-        let big = Item { len: 3 * 1024 * 1024, ent: Ent::Low4, hint: Hint::Yes, src: Src::Mem, dup_of: None };
+        // (both sides of the 4 MiB switch of the deduplicating adder: below it hashes a buffered copy, above it streams)
+        let big_len = if k % 18 == 4 { 3 * 1024 * 1024 } else { 4 * 1024 * 1024 + 4096 };
+        let big = Item { len: big_len, ent: Ent::Low4, hint: Hint::Yes, src: if k % 4 == 0 { Src::File } else { Src::Mem }, dup_of: None };
         items.insert(1, big.clone());
-        let mut b2 = big;
+        let mut b2 = big.clone();
         b2.ent = Ent::Mid6;
         items.push(b2);
+        let mut again = big;
         for it in items.iter_mut() {
             if let Some(d) = it.dup_of.as_mut() {
                 if *d >= 1 {
@@ -74,6 +77,10 @@ pub fn gen(seed: u64, tier: Tier, k: u64) -> Value {
                 }
             }
         }
+        // the big content once more, later in the history (it sits at position 1 after the insertion above)
+        again.dup_of = Some(1);
+        again.hint = Hint::Detect;
+        items.push(again);
     }
     let case = ContentCase { seed: rng.next(), comp, cached, items };
     let mut v = case.to_json();
